@@ -38,6 +38,7 @@ func TestVerifC17ExpandEnvToArgs(t *testing.T) {
 		var tmpl []string
 		var want []string
 		usedCmd := false
+		dollars := false
 		nexp := 0
 		for i := 0; i < nparts; i++ {
 			kind := rapid.IntRange(0, 3).Draw(t, "kind")
@@ -49,7 +50,13 @@ func TestVerifC17ExpandEnvToArgs(t *testing.T) {
 					continue
 				}
 				tmpl = append(tmpl, text)
-			case 1, 2: // $NAME / ${NAME}
+			case 1, 2: // $NAME / ${NAME}; the value is substituted verbatim, whatever it contains
+				if len(flags) > 0 && rapid.IntRange(0, 2).Draw(t, "dollar") == 0 {
+					k := rapid.IntRange(0, len(flags)-1).Draw(t, "dollarflag")
+					flags[k] += rapid.SampledFrom([]string{"$(arch)", "$", "$(pkg-config --libs zz)", "${X}", "$HOME", "$(x)y"}).Draw(t, "dollartext")
+					text = pcgen.Render(t, flags, true)
+					dollars = true
+				}
 				name := fmt.Sprintf("VERIF_C17_%d", i)
 				os.Setenv(name, text)
 				defer os.Unsetenv(name)
@@ -76,7 +83,11 @@ func TestVerifC17ExpandEnvToArgs(t *testing.T) {
 			want = append(want, flags...)
 		}
 		template := strings.Join(tmpl, " ")
-		c.Case(verifstat.Hash("expand", template, strings.Join(want, "\x00")), nexp >= 2, "expand_env")
+		cls := []string{"expand_env"}
+		if dollars {
+			cls = append(cls, "expand_env_value_with_dollar")
+		}
+		c.Case(verifstat.Hash("expand", template, strings.Join(want, "\x00")), nexp >= 2 || dollars, cls...)
 		c.Sample(map[string]any{"kind": "expand", "template": template, "want": want})
 		got := ExpandEnvToArgs(template)
 		if usedCmd {
